@@ -371,6 +371,50 @@ impl SignedPacketStore {
         rx.await.anyerr()
     }
 
+    /// Verification hook: the `(time, key)` entries the eviction pass reads below `cutoff`
+    /// from a fresh [`Snapshot`] (the body of the loop in [`evict_task_inner`], without
+    /// sending anything).
+    #[cfg(iroh_verif)]
+    pub(crate) async fn verif_snapshot_below(
+        &self,
+        cutoff: Timestamp,
+    ) -> Result<Vec<(Timestamp, SignedPacketsKey)>> {
+        let (tx, rx) = oneshot::channel();
+        self.send
+            .send(Message::Snapshot { res: tx })
+            .await
+            .anyerr()?;
+        let snapshot = rx.await.anyerr()?;
+        let mut out = Vec::new();
+        for item in snapshot
+            .update_time
+            .range(..cutoff.to_be_bytes())
+            .anyerr()?
+        {
+            let (time, keys) = item.anyerr()?;
+            let time = Timestamp::from_be_bytes(time.value());
+            for key in keys {
+                out.push((time, key.anyerr()?.value()));
+            }
+        }
+        Ok(out)
+    }
+
+    /// Verification hook: sends `Message::CheckExpired { time, key }` to the actor, as the
+    /// eviction pass does for every entry it read.
+    #[cfg(iroh_verif)]
+    pub(crate) async fn verif_check_expired(
+        &self,
+        time: Timestamp,
+        key: SignedPacketsKey,
+    ) -> Result<()> {
+        let key = PublicKeyBytes::new_unchecked(key);
+        self.send
+            .send(Message::CheckExpired { time, key })
+            .await
+            .anyerr()
+    }
+
     #[cfg(test)]
     pub(crate) async fn remove(&self, key: &PublicKeyBytes) -> Result<bool> {
         let (tx, rx) = oneshot::channel();
